@@ -1,9 +1,10 @@
-(** Persist then load is the identity (binary format): after MakeRoot, LoadMast of the returned root
+(** Persist then load is the identity (both node formats; [f] is a section variable, so every lemma
+    below takes the format as its first argument): after MakeRoot, LoadMast of the returned root
     from the resulting store yields a tree with the same entries, size, height and branch factor,
     for every residency mix of the persisted tree, provided the element encoding round-trips, sizes
     fit 64 bits and no two different byte strings written share a name.  Lemma file. *)
 From Coq Require Import List NArith ZArith Lia Bool Sorted.
-From Mast Require Import Prim Key Tree KeyOrder Codec CodecRT NameLen Store Diff World Erase Build Spec Canon Links Level Inv Persist Hist.
+From Mast Require Import Prim Key Tree KeyOrder Codec CodecRT CodecV1 NameLen Store Diff World Erase Build Spec Canon Links Level Inv Persist Hist.
 Import ListNotations.
 
 Opaque name_of blake2b_256 b64url crc64 uint_layer_fuel.
@@ -46,15 +47,46 @@ Proof. intros A B h b H. apply B, A, H. Qed.
 Lemma extends_apply s t : extends s (apply_stores s t).
 Proof. intros h b H. apply apply_stores_keeps. exact H. Qed.
 
+(** * element texts a format can carry: the binary format takes any byte string whose length fits 64
+    bits; the v1marshaler format takes JSON value texts ([elem_ok]) and names that need no escaping *)
+Definition body_ok (f : nfmt) (b : bytes) : Prop :=
+  match f with FBin => small_list b | FV1 => elem_ok b = true end.
+Definition hname_ok (f : nfmt) (h : name) : Prop :=
+  match f with FBin => small_list h | FV1 => plain h = true end.
+
+Lemma parse_fmt_string f : parse_fmt (fmt_string f) = Some f.
+Proof. destruct f; reflexivity. Qed.
+
+Lemma decode_encode_node f keys vals links :
+  length vals = length keys -> CodecRT.links_ok (length keys) links ->
+  small (N.of_nat (length keys)) -> small (N.of_nat (length links)) ->
+  Forall (body_ok f) keys -> Forall (body_ok f) vals ->
+  Forall (fun l => match l with Some h => hname_ok f h | None => True end) links ->
+  decode_node f (encode_node f keys vals links) = Some (keys, vals, links).
+Proof.
+  intros Hv Hl Hck Hcl Hk Hvs Hls. destruct f; cbn [decode_node encode_node body_ok hname_ok] in *.
+  - apply decode_encode_bin; try assumption.
+    eapply Forall_impl; [|exact Hls]. intros [h|] H; [exact H|unfold small_list, small; cbn; lia].
+  - destruct Hl as [Hll Hlf]. apply decode_encode_v1; try assumption.
+    unfold v1_links_ok. rewrite Forall_forall in *. intros [h|] Hin; [|exact I].
+    split; [|exact (Hls _ Hin)]. specialize (Hlf _ Hin). cbn in Hlf. destruct h; [contradiction|discriminate].
+Qed.
+
+Lemma name_of_ok_f f b : name_of b <> [] /\ hname_ok f (name_of b).
+Proof. destruct f; cbn [hname_ok]; [apply name_of_ok|]. split; [apply name_of_ok|apply name_plain]. Qed.
+
+Section FMT.
+Variable f : nfmt.
+
 (** * what it means for a node to be in the store *)
 Definition key_rt (kind : N) (k : key) : Prop := kunmarshal kind (kmarshal k) = Some k.
 Definition entry_ok (kind : N) (e : entry key val) : Prop :=
-  key_rt kind (ekey _ _ e) /\ small_list (kmarshal (ekey _ _ e)) /\ small_list (eval _ _ e).
-Definition name_ok (h : name) : Prop := h <> [] /\ small_list h.
+  key_rt kind (ekey _ _ e) /\ body_ok f (kmarshal (ekey _ _ e)) /\ body_ok f (eval _ _ e).
+Definition name_ok (h : name) : Prop := h <> [] /\ hname_ok f h.
 
 Inductive sto (s : store) (kind : N) : name -> knode -> Prop :=
 | sto_node h l0 (es : list (entry key val)) :
-    Store.lookup s h = Some (node_bytes FBin (Node false (Some h) l0 es)) ->
+    Store.lookup s h = Some (node_bytes f (Node false (Some h) l0 es)) ->
     sto_l s kind l0 -> Forall (fun e => sto_l s kind (elink _ _ e)) es ->
     Forall (entry_ok kind) es -> small (N.of_nat (S (length es))) -> name_ok h ->
     sto s kind h (Node false (Some h) l0 es)
@@ -64,9 +96,9 @@ with sto_l (s : store) (kind : N) : klink -> Prop :=
 
 Lemma sto_mono s s' kind : extends s s' -> forall fuel h c, fits key val fuel c -> sto s kind h c -> sto s' kind h c.
 Proof.
-  intros Hx. induction fuel as [|f IH]; intros h c Hf H; [contradiction|].
+  intros Hx. induction fuel as [|fl IH]; intros h c Hf H; [contradiction|].
   inversion H as [h' l0 es Hl H0 Hes Hok Hsm Hn]; subst. cbn [fits n_l0 n_es] in Hf. destruct Hf as [Hf0 Hfes].
-  assert (Hlk : forall l, fitsl_of key val (fits key val f) l -> sto_l s kind l -> sto_l s' kind l).
+  assert (Hlk : forall l, fitsl_of key val (fits key val fl) l -> sto_l s kind l -> sto_l s' kind l).
   { intros l Hfl Hl'. inversion Hl' as [|h2 c2 Hc2]; subst; [constructor|]. constructor. apply IH; [exact Hfl|exact Hc2]. }
   constructor; try assumption.
   - apply Hx. exact Hl.
@@ -99,13 +131,13 @@ Proof.
   cbn [map combine ekey eval elink fst snd] in *. rewrite Hl, IH. reflexivity.
 Qed.
 
-Lemma resolve_sto s kind : forall fuel h c, sto s kind h c -> fits key val fuel c -> resolve fuel s FBin kind h = LHash h c.
+Lemma resolve_sto s kind : forall fuel h c, sto s kind h c -> fits key val fuel c -> resolve fuel s f kind h = LHash h c.
 Proof.
-  induction fuel as [|f IH]; intros h c H Hf; [contradiction|].
+  induction fuel as [|fl IH]; intros h c H Hf; [contradiction|].
   inversion H as [h' l0 es Hl H0 Hes Hok Hsm Hn]; subst. cbn [fits n_l0 n_es] in Hf. destruct Hf as [Hf0 Hfes].
-  cbn [resolve]. rewrite Hl. unfold node_bytes. cbn [n_es n_links n_l0 encode_node decode_node map].
-  assert (Hrl : forall l, fitsl_of key val (fits key val f) l -> sto_l s kind l ->
-            (match link_name l with None => LNil | Some c0 => resolve f s FBin kind c0 end) = l).
+  cbn [resolve]. rewrite Hl. unfold node_bytes. cbn [n_es n_links n_l0 map].
+  assert (Hrl : forall l, fitsl_of key val (fits key val fl) l -> sto_l s kind l ->
+            (match link_name l with None => LNil | Some c0 => resolve fl s f kind c0 end) = l).
   { intros l Hfl Hl'. inversion Hl' as [|h2 c2 Hc2]; subst; [reflexivity|]. cbn [link_name]. apply IH; assumption. }
   assert (Hnames : Forall (fun l : option name => match l with Some [] => False | _ => True end)
                           (link_name l0 :: map link_name (map (elink _ _) es))).
@@ -115,19 +147,19 @@ Proof.
     - clear -Hes. induction Hes as [|e r He _ IHr]; [constructor|]. cbn [map]. constructor; [|exact IHr].
       inversion He as [|h2 c2 Hc2]; subst; [exact I|]. cbn [link_name]. inversion Hc2; subst.
       match goal with Hx : name_ok h2 |- _ => destruct Hx as [Hx _] end. destruct h2; [contradiction|exact I]. }
-  assert (Hsmall : Forall (fun l : option name => small_list (link_body l)) (link_name l0 :: map link_name (map (elink _ _) es))).
+  assert (Hsmall : Forall (fun l : option name => match l with Some h0 => hname_ok f h0 | None => True end) (link_name l0 :: map link_name (map (elink _ _) es))).
   { constructor.
-    - inversion H0 as [|h2 c2 Hc2]; subst; [unfold small_list, small; cbn; lia|]. cbn [link_name link_body]. inversion Hc2; subst.
+    - inversion H0 as [|h2 c2 Hc2]; subst; [exact I|]. cbn [link_name]. inversion Hc2; subst.
       match goal with Hx : name_ok h2 |- _ => exact (proj2 Hx) end.
     - clear -Hes. induction Hes as [|e r He _ IHr]; [constructor|]. cbn [map]. constructor; [|exact IHr].
-      inversion He as [|h2 c2 Hc2]; subst; [unfold small_list, small; cbn; lia|]. cbn [link_name link_body]. inversion Hc2; subst.
+      inversion He as [|h2 c2 Hc2]; subst; [exact I|]. cbn [link_name]. inversion Hc2; subst.
       match goal with Hx : name_ok h2 |- _ => exact (proj2 Hx) end. }
-  rewrite decode_encode_bin.
+  rewrite decode_encode_node.
   - rewrite <- (map_map (ekey _ _) kmarshal), unmarshal_keys_rt.
     + cbn [length]. rewrite !map_length, !Nat.eqb_refl. cbn [negb orb map]. cbv beta.
       rewrite (Hrl l0 Hf0 H0). f_equal. f_equal.
       change (map (fun e : entry key val => eval key val e) es) with (map (eval key val) es).
-      apply (rebuild_entries (fun l : option name => match l with Some c => resolve f s FBin kind c | None => LNil end)).
+      apply (rebuild_entries (fun l : option name => match l with Some c => resolve fl s f kind c | None => LNil end)).
       clear -Hes Hfes Hrl. induction Hes as [|e r He _ IHr]; [constructor|]. inversion Hfes; subst.
       constructor; [apply Hrl; assumption|apply IHr; assumption].
     + rewrite Forall_map. eapply Forall_impl; [|exact Hok]. intros e [Hk _]. exact Hk.
@@ -143,7 +175,7 @@ Qed.
 
 (** * persisting puts every node of the version into the store *)
 Definition kv_ok (kind : N) (x : key * val) : Prop :=
-  key_rt kind (fst x) /\ small_list (kmarshal (fst x)) /\ small_list (snd x).
+  key_rt kind (fst x) /\ body_ok f (kmarshal (fst x)) /\ body_ok f (snd x).
 
 Lemma entries_in_list (n : knode) e : In e (n_es _ _ n) -> In (ekey _ _ e, eval _ _ e) (to_list_n _ _ n).
 Proof.
@@ -220,19 +252,19 @@ Lemma allh_l_mono (P P' : name -> knode -> Prop) l : (forall h c, P h c -> P' h 
   allh_l key val P l -> allh_l key val P' l.
 Proof. intros HP H. destruct H as [|c Hc|h c Hc]; constructor; [eapply allh_mono; eassumption|apply HP; exact Hc]. Qed.
 
-Lemma node_bytes_flags f d s d' s' l0 (es : list (entry key val)) :
-  node_bytes f (Node d s l0 es) = node_bytes f (Node d' s' l0 es).
+Lemma node_bytes_flags g d s d' s' l0 (es : list (entry key val)) :
+  node_bytes g (Node d s l0 es) = node_bytes g (Node d' s' l0 es).
 Proof. reflexivity. Qed.
 
 Lemma extends_put s h b : extends s (put s h b).
 Proof. intros h' b' H. apply put_keeps. exact H. Qed.
 
 Definition stl (fu : nat) (l : klink) : M klink :=
-  match l with LPtr c => let* (h, c') := store_node fu FBin c in ret (LHash h c') | _ => ret l end.
+  match l with LPtr c => let* (h, c') := store_node fu f c in ret (LHash h c') | _ => ret l end.
 
 Lemma store_node_sto kind : forall fuel (n : knode) s,
   fits key val fuel n -> allh key val (sto s kind) n -> list_ok kind (to_list_n _ _ n) ->
-  okt (store_node fuel FBin n) (fun t r => nocoll s t -> sto (apply_stores s t) kind (fst r) (snd r)).
+  okt (store_node fuel f n) (fun t r => nocoll s t -> sto (apply_stores s t) kind (fst r) (snd r)).
 Proof.
   induction fuel as [|fu IH]; intros n s Hf Hall Hok; [contradiction|].
   cbn [fits] in Hf. destruct Hf as [Hf0 Hfes]. destruct (allh_inv _ _ _ _ Hall) as [Ha0 Haes].
@@ -292,13 +324,13 @@ Proof.
                      | [] => ret []
                      | (k, v, l) :: r => let* l' := stl fu l in let* r' := go r in ret ((k, v, l') :: r')
                      end) es in
-      let b := node_bytes FBin (Node false None l0' es') in
+      let b := node_bytes f (Node false None l0' es') in
       let h := name_of b in
       tick (EStore h b) >> ret (h, Node false (Some h) l0' es'))
       (fun t r => nocoll s t -> sto (apply_stores s t) kind (fst r) (snd r))).
   { eapply okt_bind; [exact (Hst l0 s (extends_refl s) Hf0 Ha0 Hlo0)|]. intros t1 l0' Hl0'.
     eapply okt_bind; [exact (Hgo es (apply_stores s t1) (extends_apply s t1) Hfes Haes Hloes Heo)|]. intros t2 es' Hes'.
-    cbn zeta. set (b := node_bytes FBin (Node false None l0' es')). set (h := name_of b).
+    cbn zeta. set (b := node_bytes f (Node false None l0' es')). set (h := name_of b).
     eapply okt_bind; [apply (okt_tick (EStore h b))|]. intros t3 [] ->. apply okt_ret.
     rewrite app_nil_r. intros Hn. apply nocoll_app in Hn. destruct Hn as [Hn1 Hn2]. apply nocoll_app in Hn2. destruct Hn2 as [Hn2 Hn3].
     cbn [nocoll] in Hn3. destruct Hn3 as [Hcoll _].
@@ -306,12 +338,12 @@ Proof.
     rewrite !apply_stores_app. cbn [apply_stores fst snd].
     set (s2 := apply_stores (apply_stores s t1) t2) in *.
     constructor.
-    - rewrite (node_bytes_flags FBin false (Some h) false None). apply put_found. exact Hcoll.
+    - rewrite (node_bytes_flags f false (Some h) false None). apply put_found. exact Hcoll.
     - eapply sto_l_mono; [|exact Hl0']. eapply extends_trans; [apply extends_apply|apply extends_put].
     - eapply Forall_impl; [|exact A]. intros e He. eapply sto_l_mono; [apply extends_put|exact He].
     - exact B.
     - rewrite C. exact Hlen.
-    - apply name_of_ok. }
+    - apply name_of_ok_f. }
   cbn [store_node n_dirty n_src n_l0 n_es].
   destruct d; [exact Hbody|]. destruct sr as [h|]; [|exact Hbody].
   apply okt_ret. intros _. cbn [apply_stores fst snd]. exact (allh_clean _ _ _ _ h Hall eq_refl eq_refl).
@@ -374,11 +406,11 @@ Proof. intros [[->|[Hl _]] _]; [reflexivity|]. inversion Hl. Qed.
 Theorem load_canon s kind bf hh sz h (n : knode) l :
   sto s kind h n -> erase_n _ _ n = bnode _ _ (klayer bf) hh l -> ssorted key val kcmp l ->
   sz = N.of_nat (length l) -> (2 <= bf)%N -> hrule key val (klayer bf) bf l hh ->
-  oks (load_mast s kind (Root (Some h) sz hh bf fmt_bin))
-      (fun r => fst r = FBin /\ kcanon bf (snd r) l /\ m_root _ _ (snd r) = LHash h n).
+  oks (load_mast s kind (Root (Some h) sz hh bf (fmt_string f)))
+      (fun r => fst r = f /\ kcanon bf (snd r) l /\ m_root _ _ (snd r) = LHash h n).
 Proof.
   intros Hsto He Hs Hsz Hbf Hh. unfold load_mast. cbn [r_fmt r_link r_height r_size r_bf].
-  change (parse_fmt fmt_bin) with (Some FBin). cbv beta iota zeta.
+  rewrite parse_fmt_string. cbv beta iota zeta.
   rewrite (resolve_sto s kind (S hh) h n Hsto (fits_bnode key val (klayer bf) _ _ _ He)). cbn [load].
   apply (oks_bind _ _ (fun c => c = n)).
   - apply (oks_bind _ _ (fun _ => True)); [exists [ELoad h], tt; split; [reflexivity|exact I]|intros; apply oks_ret; reflexivity].
@@ -397,10 +429,10 @@ Qed.
 
 Theorem load_canon_empty s kind bf sz hh :
   sz = 0%N -> hh = 0 -> (2 <= bf)%N ->
-  oks (load_mast s kind (Root None sz hh bf fmt_bin))
-      (fun r => fst r = FBin /\ kcanon bf (snd r) [] /\ m_root _ _ (snd r) = LPtr (fresh_node key val)).
+  oks (load_mast s kind (Root None sz hh bf (fmt_string f)))
+      (fun r => fst r = f /\ kcanon bf (snd r) [] /\ m_root _ _ (snd r) = LPtr (fresh_node key val)).
 Proof.
-  intros -> -> Hbf. unfold load_mast. cbn [r_fmt r_link r_height r_size r_bf]. change (parse_fmt fmt_bin) with (Some FBin). cbv beta iota zeta.
+  intros -> -> Hbf. unfold load_mast. cbn [r_fmt r_link r_height r_size r_bf]. rewrite parse_fmt_string. cbv beta iota zeta.
   cbn [load]. apply (oks_bind _ _ (fun c => c = fresh_node key val)); [apply oks_ret; reflexivity|]. intros c ->.
   cbn [n_es fresh_node check_keys]. apply (oks_bind _ _ (fun _ => True)); [apply oks_ret; exact I|]. intros _ _.
   apply oks_ret. cbn [fst snd]. split; [reflexivity|]. cbn [pow_N]. split; [|reflexivity].
@@ -408,10 +440,10 @@ Proof.
 Qed.
 
 (** * persist then load is the identity *)
-Lemma bind_ok_inv {A B} (m : M A) (f : A -> M B) t b :
-  bind m f = (t, Ok b) -> exists t1 a t2, m = (t1, Ok a) /\ f a = (t2, Ok b) /\ t = t1 ++ t2.
+Lemma bind_ok_inv {A B} (m : M A) (g : A -> M B) t b :
+  bind m g = (t, Ok b) -> exists t1 a t2, m = (t1, Ok a) /\ g a = (t2, Ok b) /\ t = t1 ++ t2.
 Proof.
-  unfold bind. destruct m as [t1 [a| | |]]; try discriminate. destruct (f a) as [t2 r] eqn:E. intros H. inversion H; subst.
+  unfold bind. destruct m as [t1 [a| | |]]; try discriminate. destruct (g a) as [t2 r] eqn:E. intros H. inversion H; subst.
   exists t1, a, t2. repeat split. exact E.
 Qed.
 
@@ -434,11 +466,11 @@ Lemma flush_nonnil s kind bf (m : kmast) l (r : klink) n tl t1 lk m1 :
   load _ _ r = (tl, Ok n) -> (forall s0, apply_stores s0 tl = s0) -> (forall s0 t, nocoll s0 (tl ++ t) -> nocoll s0 t) ->
   (let* n0 := load _ _ r in
    if is_empty _ _ n0 then ret (None, m)
-   else let* (h, n') := store_node (S (S (m_height _ _ m))) FBin n0 in
+   else let* (h, n') := store_node (S (S (m_height _ _ m))) f n0 in
         ret (Some h, set_root _ _ m (LHash h n') (m_emptied _ _ m))) = (t1, Ok (lk, m1)) ->
   nocoll s t1 ->
-  oks (load_mast (apply_stores s t1) kind (Root lk (m_size _ _ m1) (m_height _ _ m1) (m_bf _ _ m1) fmt_bin))
-      (fun r => fst r = FBin /\ kcanon bf (snd r) l /\ root_allh (apply_stores s t1) kind (snd r)) /\
+  oks (load_mast (apply_stores s t1) kind (Root lk (m_size _ _ m1) (m_height _ _ m1) (m_bf _ _ m1) (fmt_string f)))
+      (fun r => fst r = f /\ kcanon bf (snd r) l /\ root_allh (apply_stores s t1) kind (snd r)) /\
   kcanon bf m1 l /\ root_allh (apply_stores s t1) kind m1.
 Proof.
   intros C Hall Hlo Eroot Hrn He Hld Htl Hntl Ef Hn.
@@ -464,7 +496,7 @@ Proof.
       - apply (root_node_allh s kind r); [rewrite <- Eroot; exact Hall|exact Hrn].
       - rewrite Hlist. exact Hlo. }
     assert (Her : erase_n _ _ n' = erase_n _ _ n).
-    { destruct (store_node_erase _ FBin n Hfits) as (t0 & r0 & E0 & H0). rewrite Est in E0. inversion E0; subst. exact H0. }
+    { destruct (store_node_erase _ f n Hfits) as (t0 & r0 & E0 & H0). rewrite Est in E0. inversion E0; subst. exact H0. }
     cbn [set_root m_size m_height m_bf m_root].
     split; [|split].
     + rewrite Hbfe. eapply oks_weaken; [apply (load_canon _ kind bf _ _ hh n' l Hsto)|
@@ -480,9 +512,9 @@ Qed.
 
 Theorem persist_then_load s kind bf (m : kmast) l t rt m' :
   kcanon bf m l -> root_allh s kind m -> list_ok kind l ->
-  make_root FBin m = (t, Ok (rt, m')) -> nocoll s t ->
+  make_root f m = (t, Ok (rt, m')) -> nocoll s t ->
   oks (load_mast (apply_stores s t) kind rt)
-      (fun r => fst r = FBin /\ kcanon bf (snd r) l /\ root_allh (apply_stores s t) kind (snd r)) /\
+      (fun r => fst r = f /\ kcanon bf (snd r) l /\ root_allh (apply_stores s t) kind (snd r)) /\
   kcanon bf m' l /\ root_allh (apply_stores s t) kind m'.
 Proof.
   intros C Hall Hlo E Hn.
@@ -544,7 +576,7 @@ Qed.
 Lemma grow_loop_allh bf : forall fuel root0 (m : kmast), root_allh s kind m ->
   okp (grow_loop _ _ (klayer bf) fuel root0 m) (root_allh s kind).
 Proof.
-  induction fuel as [|f IH]; intros root0 m H; [apply okp_nofuel|]. cbn [grow_loop].
+  induction fuel as [|fl IH]; intros root0 m H; [apply okp_nofuel|]. cbn [grow_loop].
   destruct (N.leb (m_grow_after _ _ m) (m_size _ _ m)); [|apply okp_ret; exact H].
   apply (okp_bind _ _ (fun _ => True)); [intros ? ? _; exact I|]. intros cg _. destruct cg; [|apply okp_ret; exact H].
   apply (okp_bind _ _ _ _ (grow_allh bf m H)). intros m' Hm'. apply IH. exact Hm'.
@@ -583,7 +615,7 @@ Qed.
 
 Lemma shrink_loop_allh : forall fuel (m : kmast), root_allh s kind m -> okp (shrink_loop _ _ fuel m) (root_allh s kind).
 Proof.
-  induction fuel as [|f IH]; intros m H; [apply okp_nofuel|]. cbn [shrink_loop].
+  induction fuel as [|fl IH]; intros m H; [apply okp_nofuel|]. cbn [shrink_loop].
   destruct (Nat.ltb 0 (m_height _ _ m) && ((m_size _ _ m <=? m_shrink_below _ _ m)%N || root_has_no_keys _ _ m)); [|apply okp_ret; exact H].
   apply (okp_bind _ _ _ _ (shrink_allh m H)). intros m' Hm'. apply IH. exact Hm'.
 Qed.
@@ -627,7 +659,7 @@ Definition pstep (kind bf : N) (st : pstate) (o : pop) : option pstate :=
   | PIns k v => match insert _ _ kcmp bytes_eqb (klayer bf) m k v with (_, Ok m') => Some (s, m') | _ => None end
   | PDel k v => match delete _ _ kcmp bytes_eqb (klayer bf) m k v with (_, Ok m') => Some (s, m') | _ => None end
   | PPersistReload =>
-      match make_root FBin m with
+      match make_root f m with
       | (t, Ok (rt, _)) =>
           let s' := apply_stores s t in
           match load_mast s' kind rt with (_, Ok (_, m2)) => Some (s', m2) | _ => None end
@@ -644,7 +676,7 @@ Definition pcond (kind : N) (st : pstate) (l : list (key * val)) (o : pop) : Pro
   match o with
   | PIns k v => list_ok kind (aupsert k v l)
   | PDel k v => alookup k l = Some v
-  | PPersistReload => forall t r, make_root FBin (snd st) = (t, Ok r) -> nocoll (fst st) t
+  | PPersistReload => forall t r, make_root f (snd st) = (t, Ok r) -> nocoll (fst st) t
   end.
 
 Definition pinv (kind bf : N) (st : pstate) (l : list (key * val)) : Prop :=
@@ -669,9 +701,9 @@ Proof.
   - destruct (k_delete_ok bf m l k v C Hc) as (t & m' & E & C'). rewrite E. exists (s, m'). split; [reflexivity|].
     split; [exact C'|]. split; [exact (delete_allh s kind bf m k v Hall t m' E)|].
     apply list_ok_remove; [exact (cn_sorted _ _ _ _ _ _ _ C)|exact Hlo].
-  - destruct (k_make_root_ok bf FBin m l C) as (t & [rt m1] & E & _). rewrite E.
+  - destruct (k_make_root_ok bf f m l C) as (t & [rt m1] & E & _). rewrite E.
     destruct (persist_then_load s kind bf m l t rt m1 C Hall Hlo E (Hc t (rt, m1) E)) as (Hload & _ & _).
-    destruct Hload as (t2 & [f m2] & E2 & Hf & C2 & A2). rewrite E2. exists (apply_stores s t, m2). split; [reflexivity|].
+    destruct Hload as (t2 & [f2 m2] & E2 & Hf & C2 & A2). rewrite E2. exists (apply_stores s t, m2). split; [reflexivity|].
     cbn [fst snd] in *. split; [exact C2|split; [exact A2|exact Hlo]].
 Qed.
 
@@ -699,3 +731,65 @@ Proof.
   destruct (pstep_ok kind bf st l o Hi Hc1) as (st' & E & Hi'). cbn [prun aprun]. rewrite E in *.
   exact (IH st' (aspec l o) Hi' Hc2).
 Qed.
+
+(** * a decision procedure for the side conditions of a run (used by the non-vacuity examples) *)
+Definition small_b (n : N) : bool := (n <? 2 ^ 64)%N.
+Lemma small_b_ok n : small_b n = true -> small n.
+Proof. unfold small_b, small. intros H. apply N.ltb_lt in H. exact H. Qed.
+Definition body_okb (b : bytes) : bool := match f with FBin => small_b (len b) | FV1 => elem_ok b end.
+Lemma body_okb_ok b : body_okb b = true -> body_ok f b.
+Proof. unfold body_okb, body_ok. destruct f; [apply small_b_ok|intros H; exact H]. Qed.
+Definition kv_okb_f (kind : N) (x : key * val) : bool :=
+  match kunmarshal kind (kmarshal (fst x)) with
+  | Some k' => match kcmp k' (fst x) with Eq => true | _ => false end
+  | None => false
+  end && body_okb (kmarshal (fst x)) && body_okb (snd x).
+Definition list_okb_f (kind : N) (l : list (key * val)) : bool :=
+  forallb (kv_okb_f kind) l && small_b (N.of_nat (S (length l))).
+Lemma list_okb_f_ok kind l : list_okb_f kind l = true -> list_ok kind l.
+Proof.
+  unfold list_okb_f. intros H. apply andb_true_iff in H. destruct H as [H1 H2]. split; [|exact (small_b_ok _ H2)].
+  rewrite forallb_forall in H1. apply Forall_forall. intros x Hx. specialize (H1 x Hx). unfold kv_okb_f in H1.
+  apply andb_true_iff in H1. destruct H1 as [H1 Hc]. apply andb_true_iff in H1. destruct H1 as [Ha Hb].
+  split; [|split; [exact (body_okb_ok _ Hb)|exact (body_okb_ok _ Hc)]].
+  unfold key_rt. destruct (kunmarshal kind (kmarshal (fst x))) as [k'|]; [|discriminate].
+  destruct (kcmp k' (fst x)) eqn:Ek; try discriminate. apply kcmp_eq in Ek. subst k'. reflexivity.
+Qed.
+Fixpoint nocoll_b (s : store) (t : list event) : bool :=
+  match t with
+  | [] => true
+  | EStore h b :: r => match Store.lookup s h with None => true | Some b' => bytes_eqb b' b end && nocoll_b (put s h b) r
+  | _ :: r => nocoll_b s r
+  end.
+Lemma nocoll_b_ok : forall t s, nocoll_b s t = true -> nocoll s t.
+Proof.
+  induction t as [|e r IH]; intros s H; [exact I|]. destruct e; cbn [nocoll_b nocoll] in *; try (apply IH; exact H).
+  apply andb_true_iff in H. destruct H as [H1 H2]. split; [|apply IH; exact H2].
+  destruct (Store.lookup s h) as [b'|]; [right; apply bytes_eqb_eq in H1; subst; reflexivity|left; reflexivity].
+Qed.
+Definition pcondb (kind : N) (st : pstate) (l : list (key * val)) (o : pop) : bool :=
+  match o with
+  | PIns k v => list_okb_f kind (aupsert k v l)
+  | PDel k v => match alookup k l with Some v' => bytes_eqb v' v | None => false end
+  | PPersistReload => match make_root f (snd st) with (t, Ok _) => nocoll_b (fst st) t | _ => true end
+  end.
+Lemma pcondb_ok kind st l o : pcondb kind st l o = true -> pcond kind st l o.
+Proof.
+  destruct o as [k v|k v|]; cbn [pcondb pcond]; intros H.
+  - apply list_okb_f_ok. exact H.
+  - destruct (alookup k l) as [v'|]; [|discriminate]. apply bytes_eqb_eq in H. subst. reflexivity.
+  - intros t r E. rewrite E in H. apply nocoll_b_ok. exact H.
+Qed.
+Fixpoint pcondsb (kind bf : N) (st : pstate) (l : list (key * val)) (ops : list pop) : bool :=
+  match ops with
+  | [] => true
+  | o :: r => pcondb kind st l o &&
+              match pstep kind bf st o with Some st' => pcondsb kind bf st' (aspec l o) r | None => true end
+  end.
+Lemma pcondsb_ok kind bf : forall ops st l, pcondsb kind bf st l ops = true -> pconds kind bf st l ops.
+Proof.
+  induction ops as [|o r IH]; intros st l H; [exact I|]. cbn [pcondsb pconds] in *.
+  apply andb_true_iff in H. destruct H as [H1 H2]. split; [apply pcondb_ok; exact H1|].
+  destruct (pstep kind bf st o) as [st'|]; [apply IH; exact H2|exact I].
+Qed.
+End FMT.
